@@ -20,6 +20,7 @@ HARNESS = os.path.join(ROOT, "harness")
 BIN = os.path.join(BUILD, "target", "release")
 DRIVER = os.path.join(LEAN, ".lake", "build", "bin", "driver")
 WHITELIST = {"propext", "Classical.choice", "Quot.sound"}
+TIER = "quick"
 FORBIDDEN = re.compile(r"\b(sorry|admit|native_decide|bv_decide|implemented_by|unsafe)\b|^\s*axiom\s|maxHeartbeats\s+0\b", re.M)
 
 sys.path.insert(0, os.path.dirname(os.path.abspath(__file__)))
@@ -138,6 +139,12 @@ def proof_step(pid, ev):
     ev["obligations"] = len(thms)
     ev["discharged"] = len(thms)
     ev["theorems"] = {t: a for t, a in axioms.items()}
+    if TIER == "thorough":
+        # independent re-check of the compiled property module by the toolchain's leanchecker
+        rc, out, err = sh(["lake", "env", "leanchecker", mod], cwd=LEAN, timeout=1800)
+        ev["leanchecker"] = "ok" if rc == 0 else "FAILED"
+        if rc != 0:
+            return False, {"stage": "leanchecker", "failed": [mod], "log": (out + err)[-2000:], "driver_ok": True}
     return True, {"driver_ok": True}
 
 
@@ -218,6 +225,8 @@ def main():
             tier = a
         elif a == "--replay":
             replay = args.pop(0)
+    global TIER
+    TIER = tier
     seed = int(os.environ.get("VERIF_SEED", "20260927"))
     if pid not in props.PROPS:
         die("unknown property %s" % pid)
